@@ -82,5 +82,24 @@ func c20Flush(maxG, maxE int) {
 	vapi.Reach("c20-flush")
 }
 
+// VerifC20SmallQueue: the same obligations with a queue of capacity 1, so that the queue-full
+// path of the logging calls is reached (the real capacity is 10000). The queue variable is
+// replaced before the background writer looks at it (natively the writer is parked on the old
+// queue: one dummy entry through the old queue makes it come round and pick up the new one).
+type c20Null struct{}
+
+func (c20Null) Write(v []byte)   {}
+func (c20Null) NeedPrefix() bool { return false }
+
+func VerifC20SmallQueue() {
+	old := logQueue
+	logQueue = make(chan *logValue, 1)
+	if !vapi.Engine() {
+		old <- &logValue{value: []byte("dummy"), writer: c20Null{}}
+		time.Sleep(5 * time.Millisecond)
+	}
+	c20Flush(2, 3)
+}
+
 func VerifC20Flush()     { c20Flush(2, 2) }
 func VerifC20FlushLong() { c20Flush(3, 2) }
